@@ -229,6 +229,8 @@ def _cb_sync(ctx, cnt, fc):
             retval = ctx.out_object
 
         if cnt == 0 and fc._ostr:
+            # the caller asked for what goes out over the wire
+            fc._server.ignored_to_null(ctx)
             fc._server.get_out_string(ctx)
             retval = ctx.out_string
 
